@@ -341,6 +341,9 @@ func cmdRun(args []string) int {
 			if only != "" && h.Fn != only {
 				continue
 			}
+			if h.ThoroughOnly && tier != "thorough" {
+				continue
+			}
 			params := h.Quick
 			budget := h.QuickBudget
 			if tier == "thorough" {
@@ -392,7 +395,11 @@ func cmdRun(args []string) int {
 			}
 			res := symgo.Explore(cfg)
 			st := res.Stats
-			rep := harnessReport{Unit: u.PkgPath, Harness: h.Fn, Params: params, Paths: st.Paths, Completed: st.Completed,
+			repName := h.Fn
+			if h.Label != "" {
+				repName += "/" + h.Label
+			}
+			rep := harnessReport{Unit: u.PkgPath, Harness: repName, Params: params, Paths: st.Paths, Completed: st.Completed,
 				Aborted: st.Aborted, SymPaths: st.SymPaths, Truncated: st.Truncated, Unsupported: st.Unsupported,
 				Unexplored: st.Unexplored, Infeasible: st.InfeasibleDropped, Instr: st.Instr, Branch: st.BranchQueries, AssertQ: st.AssertQueries,
 				AssertUnsat: st.AssertUnsat, AssertSat: st.AssertSat, AssertUnk: st.AssertUnknown, AssertConc: st.AssertConcrete,
